@@ -530,6 +530,26 @@ def contains_shape_head(tree, fname):
     return ("true" if got["Empty"] else "false"), ("true" if got["Whole"] else "false")
 
 
+# ------------------------------------------------------------------ __invert__ of the three defined classes
+def invert_rules(tree, fname):
+    """which construction each class uses for `~shape`"""
+    rules = {}
+    for clsname, key in (("SimpleShape", "simple"), ("ConnectedShape", "connected"), ("DisjointShape", "disjoint")):
+        fn = find_func(find_class(tree, clsname), "__invert__") or find_func(find_class(tree, "DefinedShape"), "__invert__")
+        if fn is None:
+            raise Unsupported(f"{clsname}.__invert__ not found")
+        body = [ast.unparse(x) for x in body_wo_doc(fn)]
+        if body == ["return self.__class__(~self.jordans[0])"] or body == ["return SimpleShape(~self.jordans[0])"]:
+            rules[key] = "simpleOfInvertedCurve"
+        elif body == ["simples = [~simple for simple in self.subshapes]", "return DisjointShape(simples)"] or body == ["return DisjointShape([~simple for simple in self.subshapes])"]:
+            rules[key] = "disjointOfInvertedSubs"
+        elif body == ["return ShapeFromJordans(tuple((~jordan for jordan in self.jordans)))"]:
+            rules[key] = "regroupInvertedCurves"
+        else:
+            raise Unsupported(f"unsupported body of {clsname}.__invert__ at {where(fn, fname)}: {body}")
+    return "\n".join(f"  | .{k} => .{v}" for k, v in rules.items())
+
+
 # ------------------------------------------------------------------ numeric literals
 def literal_consts(srcdir):
     """(name, value-as-Fraction) for the tolerance literals the properties mention"""
@@ -697,6 +717,8 @@ def regenerate(srcdir, gendir):
         out4.append("def containRule : CKind → CKind → Option CRule\n" + tbl + "\n")
         out4.append("/-- `DefinedShape.contains_shape`: answers for `other` Empty / Whole before the dispatch -/\n")
         out4.append(f"def containsEmptyAnswer : Bool := {e}\ndef containsWholeAnswer : Bool := {w}\n")
+        out4.append("/-- how `~shape` is built for each kind -/\n")
+        out4.append("def invertRule : CKind → InvRule\n" + invert_rules(tree, "shape.py") + "\n")
     except Unsupported as e:
         msgs.append(f"containRule: unsupported construct: {e}")
         out4.append(f"-- containRule: NOT TRANSLATED ({e})\n")
@@ -714,4 +736,4 @@ def regenerate(srcdir, gendir):
     ch3 = write_if_changed(os.path.join(gendir, "Integrals.lean"), src5) or ch3
     if msgs:
         return False, "; ".join(msgs)
-    return True, f"translated 21 table units and {src3.count(chr(10) + 'def ') + src5.count(chr(10) + 'def ')} arithmetic units from shape.py, plot.py, polygon.py, jordancurve.py, curve.py (changed: {ch1 or ch2 or ch3 or ch4})"
+    return True, f"translated 22 table units and {src3.count(chr(10) + 'def ') + src5.count(chr(10) + 'def ')} arithmetic units from shape.py, plot.py, polygon.py, jordancurve.py, curve.py (changed: {ch1 or ch2 or ch3 or ch4})"
